@@ -9,7 +9,7 @@ INBOX, OUT = os.path.join(VERIF, "seeded_inbox"), os.path.join(VERIF, "seeded")
 ev = {}
 for f in sys.argv[1:]:
     for l in open(f):
-        m = re.match(r"(\S+?)(r?) check=(\S+) exit=(\d+) viol=(\d+) native=(\d+) :: (.*)", l.strip())
+        m = re.match(r"(\S+?)(r?) check=(\S+) exit=(\d+) viol=(\d+) native=(\d+) ::\s*(.*)", l.strip())
         if m:
             ev.setdefault(m.group(1), []).append({"property": m.group(3), "exit": int(m.group(4)), "violations": int(m.group(5)), "confirmed_natively": int(m.group(6)),
                                                   "summary": m.group(7)[:300], "verifier": "after the strengthening this change prompted" if m.group(2) else "as committed before this round"})
